@@ -112,6 +112,23 @@ fn gen_defs(rng: &mut Rng, nid: i64, pos_pool: &[Pos]) -> Defs {
     for u in &unk {
         unk_def.push_str(&format!("{},{},{},{},{}\n", CLASSES[u.class].0, u.left, u.right, u.cost, u.pos.join(",")));
     }
+    // the last line of a definition file need not end with a line break; line breaks may be CR LF
+    if rng.chance(1, 4) {
+        while unk_def.ends_with('\n') {
+            unk_def.pop();
+        }
+    }
+    if rng.chance(1, 4) {
+        while char_def.ends_with('\n') {
+            char_def.pop();
+        }
+    }
+    if rng.chance(1, 8) {
+        unk_def = unk_def.replace('\n', "\r\n");
+    }
+    if rng.chance(1, 8) {
+        char_def = char_def.replace('\n', "\r\n");
+    }
     Defs { lines, cats, unk, char_def, unk_def }
 }
 
